@@ -57,7 +57,7 @@ def Rib.routesAt (r : Rib) (p : Name) : List Route :=
   | none => []
 
 def hasChild (nodes : List (Name × RNode)) (p : Name) : Bool :=
-  nodes.any fun q => q.1.length == p.length + 1 && q.1.take p.length == p
+  nodes.any fun q => q.1.length == p.length + 1 && decide (q.1.take p.length = p)
 
 /-- `pruneIfEmpty`: `for e := r; e.parent != nil && len(e.children) == 0 && len(e.routes) == 0; e = e.parent`
     delete `e` from its parent's children -/
@@ -98,7 +98,7 @@ def recompute (r : Rib) (fib : C05.Spec) (p : Name) : C05.Spec :=
 /-- `updateNexthopsEnc` including `for child := range r.children { child.updateNexthopsEnc() }`:
     the node at `p` and every node below it is recomputed once -/
 def updateSubtree (r : Rib) (fib : C05.Spec) (p : Name) : C05.Spec :=
-  (r.nodes.filter fun q => q.1.take p.length == p).foldl (fun f q => recompute r f q.1) fib
+  (r.nodes.filter fun q => decide (q.1.take p.length = p)).foldl (fun f q => recompute r f q.1) fib
 
 /-- `if node.Name == nil { node.Name = name }` -/
 def RNode.named (nd : RNode) (name : Name) : RNode :=
